@@ -7,7 +7,7 @@ PROPS = {
     "C07": {
         "engines": [{
             "id": "C07", "bin": "c07", "flavour": "asan",
-            "runs": {"quick": 300000, "thorough": 20000000},
+            "runs": {"quick": 300000, "thorough": 400000000},
             "budget": {"quick": 40, "thorough": 900},
             "enum_every": {"quick": 200, "thorough": 50},
         }],
@@ -30,7 +30,7 @@ PROPS = {
     "C09": {
         "engines": [{
             "id": "C09", "bin": "c09", "flavour": "asan",
-            "runs": {"quick": 150000, "thorough": 10000000},
+            "runs": {"quick": 150000, "thorough": 400000000},
             "budget": {"quick": 40, "thorough": 900},
             "enum_every": {"quick": 100, "thorough": 25},
         }],
@@ -52,7 +52,7 @@ PROPS = {
     "C11": {
         "engines": [{
             "id": "C11", "bin": "c11", "flavour": "asan",
-            "runs": {"quick": 200000, "thorough": 20000000},
+            "runs": {"quick": 200000, "thorough": 400000000},
             "budget": {"quick": 40, "thorough": 900},
             "enum_every": {"quick": 100, "thorough": 25},
         }],
@@ -70,7 +70,7 @@ PROPS = {
     "C12": {
         "engines": [{
             "id": "C12", "bin": "c12", "flavour": "asan",
-            "runs": {"quick": 300000, "thorough": 30000000},
+            "runs": {"quick": 300000, "thorough": 400000000},
             "budget": {"quick": 40, "thorough": 900},
             "enum_every": {"quick": 100, "thorough": 25},
         }],
@@ -86,7 +86,7 @@ PROPS = {
     "C15": {
         "engines": [{
             "id": "C15", "bin": "c15", "flavour": "asan",
-            "runs": {"quick": 200000, "thorough": 20000000},
+            "runs": {"quick": 200000, "thorough": 400000000},
             "budget": {"quick": 40, "thorough": 900},
             "enum_every": {"quick": 50, "thorough": 20},
         }],
@@ -102,7 +102,7 @@ PROPS = {
     "C01": {
         "engines": [{
             "id": "C01", "bin": "c01", "flavour": "asan",
-            "runs": {"quick": 150000, "thorough": 10000000},
+            "runs": {"quick": 150000, "thorough": 400000000},
             "budget": {"quick": 40, "thorough": 900},
             "enum_every": {"quick": 50, "thorough": 20},
         }],
@@ -118,12 +118,12 @@ PROPS = {
     "C19": {
         "engines": [{
             "id": "C19-seq", "bin": "c19s", "flavour": "asan",
-            "runs": {"quick": 100000, "thorough": 10000000},
+            "runs": {"quick": 100000, "thorough": 400000000},
             "budget": {"quick": 30, "thorough": 600},
             "enum_every": {"quick": 400, "thorough": 100},
         }, {
             "id": "C19-conc", "bin": "c19c", "flavour": "tsan",
-            "runs": {"quick": 150000, "thorough": 5000000},
+            "runs": {"quick": 150000, "thorough": 400000000},
             "budget": {"quick": 30, "thorough": 900},
         }],
         "technique": "deterministic simulation with fault injection: (a) seeded sequential histories against the 'latest prefix set wins' model with injected allocation failures and failing sinks; (b) seeded thread schedules of 2-4 fibers on one OS thread, every mutex and atomic operation a scheduling point (link-time wrapped), ThreadSanitizer driven through its fiber API as in-simulation race monitor, linearizability check of the recorded history, deadlock and step bound; minimised replay including the schedule",
